@@ -218,8 +218,10 @@ def plan(prop, tier):
         P["edges"] = []
         P["dims"] = {"c13_walk": [dims("app"), dims("app", deferredSort=True, minMergePct=1e9)],
                      "c13_walk_cp": [dims("app", cachePersisted=True)]}
-        P["goals"] = [("c13_goal_idle", C(NKeys=1, OpAlpha='{"s1","d"}', MaxOps=1, MaxBatches=3, MaxPokes=2, LLInit="FALSE"), ["GoalDataBehindIdleRound", "GoalSwapAfterPersist"])]
+        P["goals"] = [("c13_goal_idle", C(NKeys=1, OpAlpha='{"s1","d"}', MaxOps=1, MaxBatches=3, MaxPokes=2, LLInit="FALSE"), ["GoalDataBehindIdleRound", "GoalSwapAfterPersist"]),
+                      ("c13_goal_fail", C(NKeys=1, OpAlpha='{"s1","d"}', MaxOps=1, MaxBatches=2, MaxPokes=2, MaxErrs=1, LLInit="FALSE"), ["GoalFailDuringEmptyCycle"])]
         P["dims"]["c13_goal_idle"] = [dims("app", nkeys=1), dims("app", nkeys=1, cachePersisted=True)]
+        P["dims"]["c13_goal_fail"] = [dims("app", nkeys=1)]
         P["relevant"] = r"^lower|^snapshot|^conformance"
         P["rule"] = ("behaviours with an application lower level applying the documented protocol, any pattern of LowerLevelUpdate failures; after every step the application's "
                      "store must be the reference after a prefix and the collection view the full reference; non-trivial = the behaviour contains a failed update or two non-empty sections")
@@ -232,6 +234,13 @@ def plan(prop, tier):
         P["dims"] = {"c20_walk": [dims("store"), dims("app"), dims("store", compaction="force")],
                      "c20_walk_kids": [dims("store", "aa", 1), dims("store", "aa", 1, compaction="force")],
                      "c20_walk_cp": [dims("store", cachePersisted=True)]}
+        # failing lower-level updates (the gauges must stay non-zero until a retry succeeds), and the state in which an update
+        # fails while the merger is in the middle of a cycle that has nothing to merge
+        P["sim"].append(("c20_walk_err", C(MaxBatches=6, MaxPokes=2, SimLen=20, MaxErrs=2), 60 if q else 400))
+        # (application lower level: a store-backed round without anything to write cannot be made to fail through the File wrapper)
+        P["dims"]["c20_walk_err"] = [dims("app"), dims("app", cachePersisted=True)]
+        P["goals"] = [("c20_goal_fail", C(NKeys=1, OpAlpha='{"s1","d"}', MaxOps=1, MaxBatches=2, MaxPokes=2, MaxErrs=1), ["GoalFailDuringEmptyCycle"])]
+        P["dims"]["c20_goal_fail"] = [dims("store", nkeys=1), dims("app", nkeys=1)]
         P["leads"] = [("c20_lead", C(Tree='"a"', NKeys=1, OpAlpha='{"s1","d"}', MaxOps=1, MaxBatches=2, MaxPokes=0), ["GaugesRootOnly"], ["LeadGaugesZeroImpliesPersisted"])]
         P["dims"]["c20_lead"] = [dims("store", "a", 1)]
         P["relevant"] = r"^gauges0|^conformance"
@@ -262,6 +271,11 @@ def plan(prop, tier):
         P["sim"].append(("c19_walk_idx", C(NKeys=6, MaxOps=6, MaxBatches=4, MaxPokes=1, SimLen=16, MaxReopens=1, OpAlpha='{"s1","s2","d"}'), 60 if q else 500))
         P["dims"]["c19_walk_idx"] = [dims("store", nkeys=6, concr="edge", seed=sd0 + i, indexMinKeyBytes=1, indexMaxBytes=mx, compaction=c)
                                      for i, (mx, c) in enumerate([(12, "force"), (24, "force"), (28, "force"), (32, "force"), (36, "force"), (40, "force"), (32, "disable"), (24, "allow")])]
+        # child collections under the API variants: child batches of two operations put in descending key order, with
+        # DeferredSort / CachePersisted / Alloc-built batches (the parent batch holds none, one or two operations)
+        P["sim"].append(("c19_walk_kids", C(Tree='"a"', NKeys=2, OpAlpha='{"s1","s2","d"}', MaxOps=2, MaxBatches=5, MaxPokes=1, SimLen=18, MaxReopens=1), 60 if q else 400))
+        P["dims"]["c19_walk_kids"] = [dims("store", "a", 2, deferredSort=True, opOrder="desc"), dims("store", "a", 2, deferredSort=True, opOrder="desc", cachePersisted=True, compaction="force"),
+                                      dims("store", "a", 2, allocBatches=True, opOrder="desc", concr="edge", seed=sd0)]
         P["relevant"] = r"^(snapshot|coll|lower|reopen|heldsnap|batch)"
         P["rule"] = ("the data-path behaviours replayed under seeded adversarial concretisations (empty key, 0x00/0xFF, magic-like bytes, prefix-sharing keys, empty values); "
                      "non-trivial = two or more sections non-empty at some observation")
